@@ -26,6 +26,7 @@ class Plan:
     harness_timeout: int = 300
     notes: list = dfield(default_factory=list)
     extra_accept_units: list = dfield(default_factory=list)  # declaration-only units (acceptance obligations)
+    nostd_units: list = dfield(default_factory=list)  # declaration-only units that must also compile inside a #![no_std] crate
     exhaustive: bool = False
     native_cases: list = dfield(default_factory=list)  # (uid, hname, vals): always executed natively (dev+release); a panic is a violation
     kissat_slice: int = 0  # re-run this many harnesses with kissat (solver diversity)
@@ -508,6 +509,19 @@ class Runner:
             emit("api-shape", uid, hn, role, prof, {"harness_source": h[0].body if h else None, "diagnostic": msgs[0][:3000],
                                                    "detail": "harness written against the documented API does not type-check",
                                                    "family": h[0].family if h else ""})
+        # declarations that must also compile inside a #![no_std] crate (the crate's documented target)
+        self.nostd = None
+        if plan.nostd_units:
+            for u in plan.nostd_units:
+                unit_by_uid[u.uid] = u
+            ncr = Crate(os.path.join(self.work, f"{self.tier}_nostd"), f"vn_{pid.lower()}", list(plan.nostd_units), self.dep, self.lock, nostd=True)
+            nrej, _, nfatal, nrounds, nwall = E.accept_pass(ncr, os.path.join(self.work, "target_nostd"))
+            self.nostd = {"declarations": len(plan.nostd_units), "rejected": len(nrej), "wall_s": round(nwall, 1)}
+            if nfatal:
+                self.inconclusive.append("no_std crate: " + nfatal[:500])
+            for uid, msgs in nrej.items():
+                emit("rejected-valid-declaration", uid, "", "no_std-crate", "dev",
+                     {"diagnostic": msgs[0][:3000], "no_std": True, "detail": "a declaration that compiles in a std crate does not compile inside a #![no_std] crate"})
         # rejected declarations
         rejected_valid, rejected_invalid = [], []
         for (uid, prof), msgs in rejected_all.items():
@@ -602,6 +616,7 @@ class Runner:
                 "oracle_selftest": getattr(self, "selftest", {}),
                 "native_executions": getattr(self, "native_runs", 0),
                 "second_solver_kissat": self.kissat,
+                "no_std_crate": self.nostd,
                 "universal_unit_notes": self.universal_notes[:20],
                 "known_findings_hit": [{"role": k["role"], "unit": r["unit"]} for (r, k) in knowns],
                 "inconclusive": self.inconclusive[:40],
